@@ -379,7 +379,7 @@ func cmdRun(prop, tier string) int {
 		c := g.cases[0]
 		kf, isKnown := known[key]
 		var path string
-		if reported < 8 {
+		if reported < 8 && !isKnown {
 			c = minimise(s, c, g.class, g.sig, budget)
 			reported++
 		}
